@@ -1044,6 +1044,17 @@ FUNCS = [
                    ("r.read_exact(&mut buf)?;", "if rest.length < len then\n  return FrameRes.short alloc\nlet buf := rest.take len\nrest := rest.drop len"),
                    ("from_reader(&buf[..]) .map(Some) .map_err(|e| std::io::Error::new(std::io::ErrorKind::InvalidData, e.to_string()))",
                     "return (match decode buf with\n  | some req => FrameRes.frame req alloc rest\n  | none => FrameRes.badBody alloc)")]),
+    # ---- archive.rs::root_pair_hash: WHAT is hashed to name a root pair's record
+    dict(group="archive", file="src/bin/copia/archive.rs", name="root_pair_hash", sig="fn root_pair_hash(a: &Path, b: &Path) -> String",
+         lean="def rootPairHash {P D : Type} (H : List Nat → D) (canon : P → List Nat) (a b : P) : D := Id.run do\n"
+              "  -- `canon p`: the bytes of `canonicalize(p)`, or of `p` itself when it cannot be resolved (a parameter: the file system's answer)",
+         calls={"canon": lambda a: f"(canon {a[0]})"}, paths={},
+         methods={"as_os_str": lambda r, a: r, "as_encoded_bytes": lambda r, a: r, "finalize": lambda r, a: f"(H {r})",
+                  "to_hex": lambda r, a: r, "to_string": lambda r, a: r},
+         mutators={("h", "update"): lambda a: f"h := h ++ {a[0]}"},
+         verbatim=[("let canon = |p: &Path| std::fs::canonicalize(p).unwrap_or_else(|_| p.to_path_buf());", ""),
+                   ("let mut h = blake3::Hasher::new();", "let mut h : List Nat := []"),
+                   ('h.update(b"\\0");', "h := h ++ [0]")]),
     dict(group="hubsync", file="src/bin/copia/hub.rs", fn="hub_sync", sig=None,
          name="hub_sync (the push loop: from the counters to the end of the `for`)",
          slice=("let (mut sent, mut skipped, mut conflicts) = (0u64, 0u64, 0u64);", "hub kept a conflict-copy\");"), slice_close=2,
@@ -1192,6 +1203,7 @@ GROUP_HEAD = {
               "open Copia.Reconcile (lookup dedupAdj)\nopen Copia.LoopSupport\nopen Copia.Bisync (cIns cDel)\nopen Copia.BidirSupport"),
     "hub": ("import Copia.Model.Hub", "open Copia.Hub (Comp components)"),
     "hubsync": ("import Copia.Model.HubSync", ""),
+    "archive": ("", ""),
     "wire": ("import Copia.Model.Hub\nimport Copia.Model.WireSupport", "open Copia.WireSupport (FrameRes)"),
     "hubput": ("import Copia.Model.HubTrace\nimport Copia.Model.Hub", "open Copia.HubConc (Call Chunk Hash)"),
     "deliver": ("import Copia.Model.Deliver", "open Copia.Deliver (DStep)"),
@@ -1200,7 +1212,7 @@ GROUP_HEAD = {
               "open Copia.Delta Copia.DeltaSupport\nopen Copia.Checksum (Fast)"),
 }
 
-GROUPS = {"reconcile": "LoopsReconcile.lean", "plan": "LoopsPlan.lean", "bidir": "LoopsBidir.lean", "delta": "LoopsDelta.lean", "hub": "LoopsHub.lean", "hubsync": "LoopsHubSync.lean", "hubput": "LoopsHubPut.lean", "wire": "LoopsWire.lean", "crash": "LoopsCrash.lean", "deliver": "LoopsDeliver.lean"}
+GROUPS = {"reconcile": "LoopsReconcile.lean", "plan": "LoopsPlan.lean", "bidir": "LoopsBidir.lean", "delta": "LoopsDelta.lean", "hub": "LoopsHub.lean", "hubsync": "LoopsHubSync.lean", "hubput": "LoopsHubPut.lean", "wire": "LoopsWire.lean", "archive": "LoopsArchive.lean", "crash": "LoopsCrash.lean", "deliver": "LoopsDeliver.lean"}
 
 
 def translate(group):
